@@ -12,6 +12,7 @@ CONSTANTS
   MaxRect = 2
   BIds = "all"
   Thrs = {3, 5}
+  FilterSkew = FALSE
   TopNs = {0, 1, 2, 3, 4}
   RecalcWeight = 1
   Rand = TRUE
